@@ -692,6 +692,7 @@ void execDPlacer(const Plan &plan, const ExecOptions &opt, ExecResult &res) {
   long long prevValue = pl.value();
   long long prevHpwl = refHpwl(legal);
   bool orientChanged = false;
+  bool forced = false;
   auto observe = [&](int i, const std::string &after) {
     std::string chk = tryCall([&] { pl.check(); });
     if (!chk.empty()) cx.verdict("C02", "placer-check-threw", after + ": DetailedPlacer::check " + chk, i);
@@ -709,6 +710,11 @@ void execDPlacer(const Plan &plan, const ExecOptions &opt, ExecResult &res) {
       if (s.orient[c] != legal.orient[c]) orientChanged = true;
     }
     long long v = pl.value(), h = refHpwl(s);
+    if (forced) {
+      // a move applied regardless of its gain: monotonicity does not apply to it
+      prevValue = v;
+      prevHpwl = h;
+    }
     if (v > prevValue)
       cx.verdict("C05", "value-increase", after + ": DetailedPlacer::value() rose " + std::to_string(prevValue) + " -> " + std::to_string(v), i);
     if (h > prevHpwl) {
@@ -742,7 +748,56 @@ void execDPlacer(const Plan &plan, const ExecOptions &opt, ExecResult &res) {
     else if (g.name == "inserts") e2 = tryCall([&] { pl.runInserts(a0, a1); });
     else if (g.name == "shifts") e2 = tryCall([&] { pl.runShifts(std::max(1, a0), std::max(2, a1)); });
     else if (g.name == "reorder") e2 = tryCall([&] { pl.runReordering(std::max(1, std::min(a0, 3)), std::max(2, std::min(a1, 6))); });
-    else continue;
+    else if (g.name == "fswap" || g.name == "finsert" || g.name == "tswap" || g.name == "tinsert") {
+      // single moves on the row data structure: f* are applied whenever they are
+      // feasible (whatever their gain), t* through the placer's own try* (only if improving).
+      // Arguments are interpreted modulo the placed cells / rows, so any numbers are valid.
+      const DetailedPlacement &dp = pl.placement_;
+      std::vector<int> placed;
+      for (int c = 0; c < dp.nbCells(); ++c)
+        if (!dp.isIgnored(c) && dp.isPlaced(c)) placed.push_back(c);
+      if (placed.empty() || dp.nbRows() == 0) continue;
+      long long r0 = g.a.size() > 0 ? g.a[0] : 0, r1 = g.a.size() > 1 ? g.a[1] : 0, r2 = g.a.size() > 2 ? g.a[2] : 0;
+      auto md = [](long long v, long long m) { return (int)(((v % m) + m) % m); };
+      int c1 = placed[md(r0, (long long)placed.size())];
+      bool did = false;
+      forced = g.name[0] == 'f';
+      if (g.name == "fswap" || g.name == "tswap") {
+        int c2 = placed[md(r1, (long long)placed.size())];
+        e2 = tryCall([&] {
+          if (forced) {
+            if (dp.canSwap(c1, c2)) {
+              pl.doSwap(c1, c2);
+              did = true;
+            }
+          } else {
+            did = pl.trySwap(c1, c2);
+          }
+        });
+      } else {
+        int row = md(r1, dp.nbRows());
+        std::vector<int> cells = dp.rowCells(row);
+        int pred = cells.empty() ? -1 : (md(r2, (long long)cells.size() + 1) == 0 ? -1 : cells[md(r2, (long long)cells.size() + 1) - 1]);
+        e2 = tryCall([&] {
+          if (forced) {
+            if (dp.canInsert(c1, row, pred)) {
+              pl.doInsert(c1, row, pred);
+              did = true;
+            }
+          } else {
+            did = pl.tryInsert(c1, row, pred);
+          }
+        });
+      }
+      cx.stat(did ? "dplacer_move_applied_" + g.name : "dplacer_move_refused_" + g.name);
+      if (!e2.empty()) {
+        cx.verdict("C02", "move-threw", g.name + " " + e2, i);
+        break;
+      }
+      if (did) observe(i, g.name);
+      forced = false;
+      continue;
+    } else continue;
     cx.stat("dplacer_pass_" + g.name);
     if (!e2.empty()) {
       cx.verdict("C02", "pass-threw", g.name + "(" + std::to_string(a0) + "," + std::to_string(a1) + ") " + e2, i);
